@@ -11,7 +11,8 @@ import env
 HERE = os.path.dirname(os.path.abspath(__file__))
 BASE_POOL = ["dict", "list", "tuple", "str", "int", "float", "bool", "none", "bytes", "mystr", "mydict", "mylist", "mytuple",
              "userdict", "userlist", "ordered", "mymap", "myseq", "row", "row2", "seqmap", "neither", "named", "range", "dotdict",
-             "badleaf", "dictofrow", "listofuser", "myset", "tmp_dict", "tmp_list", "tmp_set", "tmp_obj"]
+             "badleaf", "dictofrow", "listofuser", "myset", "tmp_dict", "tmp_list", "tmp_set", "tmp_obj",
+             "nan", "inf", "nanlist", "half"]
 # a class created on the fly must be classified like the equivalent class that lives for the whole process
 ANALOG = {"tmp_dict": "mydict", "tmp_list": "mylist", "tmp_set": "myset", "tmp_obj": "neither"}
 
